@@ -605,7 +605,8 @@ func TestMutatedPluginSchemas(t *testing.T) {
 				handlers = map[string]*schema.SignalSchema{"sig": schema.NewSignalSchema("sig", mk("sigdata"), nil)}
 			}
 			if rapid.Bool().Draw(rt, "emitter") {
-				emitters = map[string]*schema.SignalSchema{"emit": schema.NewSignalSchema("emit", mk("emitdata"), nil)}
+				eid := rapid.SampledFrom([]string{"emit", "sig"}).Draw(rt, "emitterID") // may coincide with the handler's
+				emitters = map[string]*schema.SignalSchema{eid: schema.NewSignalSchema(eid, mk("emitdata"), nil)}
 			}
 			steps[id] = schema.NewStepSchema(id, mk("input"), outs, handlers, emitters, schema.NewDisplayValue(schema.PointerTo("Step"), nil, nil))
 		}
